@@ -1631,6 +1631,8 @@ pub fn run_with_persistence(words: &[&str], persist: &str, dir: &str) -> String 
     config.failure_persistence = match persist {
         "none" => FailurePersistence::None,
         "print" => FailurePersistence::Print,
+        // File(None): "the current directory" (the history process is started inside `dir`)
+        "cwd" => FailurePersistence::File(None),
         _ => FailurePersistence::File(Some(std::path::PathBuf::from(dir))),
     };
     let script: Vec<Option<usize>> = crate::split_list(script, ',')
